@@ -1,7 +1,5 @@
 SPECIFICATION Spec
 CONSTANTS
   MaxDepth = 2
-  MaxActs = 5
-INVARIANT StackShape
-PROPERTY ReturnLaw
+  MaxActs = 14
 CHECK_DEADLOCK FALSE
